@@ -1,12 +1,14 @@
 # build helpers, sourced by bin/check after env.sh. $S is the scratch directory.
 HOOKS=off
+# VERIF_OVERLAY: a go build -overlay file used only by the sensitivity self-test (seeded breaks as file replacements)
+OVL=${VERIF_OVERLAY:+-overlay=$VERIF_OVERLAY}
 build_harness() { # build_harness <out> [go build flags...]
   local out=$1; shift
-  if (cd "$VERIF_ROOT/harness" && GOWORK=off "$GO_BIN" build -tags verif "$@" -o "$out" ./cmd/check) 2>"$S/build.err"; then
+  if (cd "$VERIF_ROOT/harness" && GOWORK=off "$GO_BIN" build $OVL -tags verif "$@" -o "$out" ./cmd/check) 2>"$S/build.err"; then
     HOOKS=on; return 0
   fi
   # the verif-tagged accessors may no longer compile after a refactor: fall back to black-box only
-  if (cd "$VERIF_ROOT/harness" && GOWORK=off "$GO_BIN" build "$@" -o "$out" ./cmd/check) 2>>"$S/build.err"; then
+  if (cd "$VERIF_ROOT/harness" && GOWORK=off "$GO_BIN" build $OVL "$@" -o "$out" ./cmd/check) 2>>"$S/build.err"; then
     HOOKS=off; echo "NOTE harness built without verif hooks (tagged build failed)"; return 0
   fi
   cat "$S/build.err" >&2
@@ -16,11 +18,19 @@ prepare_default() { build_harness "$S/check" && CHECK_BIN=$S/check; }
 
 build_race() { build_harness "$S/check.race" -race && export VERIF_RACE_BIN=$S/check.race; }
 build_asan() { # optional: failure is not fatal, the part is reported inconclusive by the driver
-  (cd "$VERIF_ROOT/harness" && GOWORK=off CGO_ENABLED=1 "$GO_BIN" build -tags verif -asan -o "$S/check.asan" ./cmd/check) 2>>"$S/build.err" && export VERIF_ASAN_BIN=$S/check.asan
+  (cd "$VERIF_ROOT/harness" && GOWORK=off CGO_ENABLED=1 "$GO_BIN" build $OVL -tags verif -asan -o "$S/check.asan" ./cmd/check) 2>>"$S/build.err" && export VERIF_ASAN_BIN=$S/check.asan
   return 0
 }
 prepare_C08() { prepare_default && build_race; }
 prepare_C10() {
   prepare_default && export VERIF_PLAIN_BIN=$CHECK_BIN && build_race || return 1
   if [ "$MODE" = thorough ]; then build_asan; fi
+}
+prepare_C11() {
+  prepare_default && build_race || return 1
+  if [ "$MODE" = thorough ]; then build_asan; fi
+}
+prepare_C12() {
+  prepare_default || return 1
+  if [ "$MODE" = thorough ]; then build_race; build_asan; fi
 }
